@@ -78,13 +78,14 @@ var errnosFor = map[string][]syscall.Errno{
 	"renameat":        {syscall.EACCES, syscall.EIO, syscall.ENOSPC},
 	"unlinkat":        {syscall.EACCES, syscall.EIO},
 	"read":            {syscall.EIO},
-	"newfstatat":      {syscall.EACCES, syscall.EIO},
+	"newfstatat":      {syscall.EACCES, syscall.EIO, syscall.ENOENT},
 	"getdents64":      {syscall.EIO},
 }
 
 var c15Counter int
 
 type c15Case struct {
+	SemanticFail bool `json:"semantic_fail"`
 	Default uint      `json:"default"`
 	Pre     []preUser `json:"pre"`
 	Op      Op        `json:"op"`
@@ -95,12 +96,15 @@ func genC15(t *rapid.T) c15Case {
 	aux, cls := genAuxFor(t, "aux")
 	c.Pre = []preUser{{Name: "root", PW: "rootpw", Admin: true, PID: 1}, {Name: "alice", PW: "old-password", Admin: rapid.Bool().Draw(t, "aadm"), PID: uint(rapid.IntRange(1, 2).Draw(t, "apid")), Aux: aux, AuxCls: cls}}
 	// every operation kind is covered in turn (kinds x shards x cases), not left to chance
-	kinds := []string{"add", "update", "setadmin", "remove", "init", "update", "add", "setadmin"}
-	kind := kinds[(vlib.Shard()+c15Counter*vlib.Shards())%len(kinds)]
-	c15Counter++
+	kinds := []string{"add", "update", "setadmin", "remove", "init", "add-existing", "update", "add", "setadmin", "add-existing"}
+	// one kind per shard (a pure function of VERIF_SHARD, so that rapid can reproduce and shrink a failing case)
+	kind := kinds[vlib.Shard()%len(kinds)]
 	_ = rapid.Just(0).Draw(t, "kind:"+kind)
 	c.Op = Op{Kind: kind, User: "alice", PW: "new-password", Admin: rapid.Bool().Draw(t, "admin")}
 	switch kind {
+	case "add-existing":
+		// the user exists: the operation fails for a semantic reason on its own, and must fail harmlessly under any injected fault
+		c.Op.Kind, c.Op.Admin, c.SemanticFail = "add", c.Pre[1].Admin, true
 	case "add":
 		c.Op.User = "bob"
 	case "setadmin":
@@ -132,8 +136,13 @@ func TestC15FaultInjection(t *testing.T) {
 		s0 := mk()
 		base, out0, err := s0.trace([]Op{c.Op}, nil, true)
 		s0.cleanup()
-		if err != nil || len(base.Ops) != 1 || !out0[0].OK {
-			t.Fatalf("VERIF-INFRA baseline run failed: %v %+v", err, out0)
+		if err != nil || len(base.Ops) != 1 || out0[0].OK == c.SemanticFail {
+			t.Fatalf("VERIF-INFRA baseline run: err=%v result=%+v (expected ok=%v)", err, out0, !c.SemanticFail)
+		}
+		if c.SemanticFail {
+			if diff := base.Ops[0].Pre.Diff(base.Ops[0].Post, true, nil); len(diff) > 0 {
+				t.Fatalf("VIOLATION C15: add of an existing user changed the store: %v", diff)
+			}
 		}
 		events := base.Ops[0].Events
 		renamed := -1
@@ -205,6 +214,9 @@ func TestC15FaultInjection(t *testing.T) {
 						t.Fatalf("VIOLATION C15: the operation reported failure (%s) but the store changed: %v, %d temp files left; %s", out[0].Err, diff, tmpLeft, ctx)
 					}
 					vlib.Class("failed-op-left-store-unchanged")
+				} else if c.SemanticFail {
+					s.cleanup()
+					t.Fatalf("VIOLATION C15: add of an existing user reported success under an injected fault; %s", ctx)
 				} else if c.Op.Kind != "remove" {
 					// reported success: the complete success state
 					data := op.Post[targetRel].Data
